@@ -6,12 +6,12 @@ from vprun import Run
 
 WB = ("c10", "internal/pkg/table", "^TestVerifC10$")
 API = ("c10srv", "pkg/server", "^TestVerifC10Srv$")
-STRICT, KF, CONF = "PolicyTrace.cfg", "PolicyKF.cfg", "PolicyConf.cfg"
+STRICT, KF, CONF = "PolicyTrace.cfg", "PolicyTraceKF.cfg", "PolicyTraceConf.cfg"
 
 
 def tiny(run, pool, workers):
     """exhaustive pool of tiny programs: design-level check + one schedule per program"""
-    cfg = "MCPolicy_%s.cfg" % pool
+    cfg = "PolicyMC_%s.cfg" % pool
     v.write_cfg(run.sc, cfg, """SPECIFICATION MCSpec
 CONSTANTS
   Pool = "%s"
@@ -19,11 +19,11 @@ INVARIANTS
   D_C10_MechWithinDoc
   EmitTiny
 """ % pool)
-    res = v.tlc(run.sc, "MCPolicy", cfg, workers=workers, timeout=1500)
-    run.design(res, "MCPolicy pool=%s (all tiny programs x 6 routes x import/export: code-shaped "
+    res = v.tlc(run.sc, "PolicyMC", cfg, workers=workers, timeout=1500)
+    run.design(res, "PolicyMC pool=%s (all tiny programs x 6 routes x import/export: code-shaped "
                     "evaluation within the documented readings)" % pool)
     if not res.printed:
-        raise v.MachineryError("MCPolicy printed no schedules:\n" + res.out[-2000:])
+        raise v.MachineryError("PolicyMC printed no schedules:\n" + res.out[-2000:])
     return res.printed
 
 
@@ -143,6 +143,6 @@ ASSUMPTIONS = [
     "the transcription of docs/sources/policy.md in Policy.tla (Eval) and the Go projections in harness/c10*",
     "where the document is silent both readings are accepted (AmbSpace) or the evaluation is not judged (und)",
     "AS_PATH conditions only in the shapes ^AS_ _AS$ _AS_ ^AS$; community conditions by exact value; no free-form regular expressions",
-    "recorded findings are tolerated only by their TLA+ predicates (PolicyKF.cfg) and their input shapes are "
+    "recorded findings are tolerated only by their TLA+ predicates (PolicyTraceKF.cfg) and their input shapes are "
     "excluded from the bulk generation (PolicyGen Avoid)",
 ]
